@@ -114,7 +114,8 @@ pub fn run_case(u: &Universe, case: &Value) -> Vec<Value> {
     let mut evs = vec![];
     for wrap in case["wraps"].as_array().unwrap() {
         let wrap = wrap.as_str().unwrap();
-        let ds = wrap_str(u, wrap, &ms_str);
+        let ds = crate::sat::desc_text(u, wrap, ast, ctx);
+        let _ = &ms_str;
         let d = match catch_unwind(|| Desc::from_str(&ds)) {
             Ok(Ok(d)) => d,
             _ => continue,
@@ -128,7 +129,8 @@ pub fn run_case(u: &Universe, case: &Value) -> Vec<Value> {
             let prevout = TxOut { value: Amount::from_sat(PREV_VALUE), script_pubkey: d.script_pubkey() };
             let sat = WorldSat { u, w, tx: &tx, prevout: &prevout, ecdsa_scope: scope(&d, prevout.value),
                                  internal_key: Some(INTERNAL_KEY), cache: RefCell::new(BTreeMap::new()) };
-            let assets = assets_of(u, w, ctx);
+            // keys are offered in the form in which the descriptor writes them
+            let assets = assets_of(u, w, if wrap == "tr33" { "tap33" } else { ctx });
             for mode in ["nonmall", "mall"] {
                 let mut r = json!({"w": w.json, "mode": mode});
                 let out = catch_unwind(AssertUnwindSafe(|| {
